@@ -178,6 +178,11 @@ func runC06(r *R) {
 	for i := 0; i < n; i++ {
 		g.one()
 	}
+	if st.Choose(6) == 0 {
+		// last command: an APPEND announcing more than the 100 MiB limit as a NON-synchronising literal (no payload
+		// follows): whatever the capabilities, the backend must not be asked to store it
+		g.cmds = append(g.cmds, rawCmd{Tag: g.tag(), Name: "APPEND", Parts: cat("APPEND INBOX ", rawPart{IsLit: true, Announce: 100*1024*1024 + 1 + int64(st.Choose(3))})})
+	}
 	var blob []byte
 	if mode == 1 {
 		if t.Choose(6) == 0 {
